@@ -29,6 +29,9 @@ func c15Tap(r *rng, id string) {
 	if late {
 		c.key = nil
 		c.emptyRing = true
+	} else if r.chance(1, 3) {
+		// a ring created with further (retired) keys that do not include the primary
+		c.keys = [][]byte{mkKey(r, 16), mkKey(r, 32)}
 	}
 	n, err := newCnode(c)
 	if err != nil {
@@ -130,6 +133,10 @@ func c15Tap(r *rng, id string) {
 		n.ingest(seal(ping, false))
 		ind := ml.VerifEncodeIndirectPing(33, []byte{10, 0, 0, 1}, 7946, peerName, true, []byte{10, 0, 0, 2}, 7946, "relay-SECRETNAME")
 		n.ingest(seal(ind, false))
+		// 3b. the stream fallback of a probe, as initiator
+		_, finp := dialCapture()
+		ml.VerifSendPingAndWaitForAck(n.m, "10.0.0.1:7946", peerName, 4242, time.Now().Add(50*time.Millisecond))
+		finp()
 		// 4. push/pull as initiator (request) and as host (response), TCP ping ack, error reply
 		_, fin = dialCapture()
 		n.m.Join([]string{peerName + "/10.0.0.1:7946"})
